@@ -5,7 +5,7 @@ PROPERTY = "C03"
 
 
 def tasks(tier):
-    return (contract_tasks("contracts.world_connect", "C03") + contract_tasks("contracts.dataplane", "C03", tier=tier) + contract_tasks("contracts.connect", "C03", tier=tier)
+    return (contract_tasks("contracts.merge_ded", "C03") + contract_tasks("contracts.world_connect", "C03") + contract_tasks("contracts.dataplane", "C03", tier=tier) + contract_tasks("contracts.connect", "C03", tier=tier)
             + contract_tasks("contracts.sim_process", "C03", tier=tier, names=["GetOutputs"])
             + other_tasks("contracts.dataplane_bounded", "C03", "bounded") + other_tasks("contracts.determinism_bounded", "C03", "bounded")
             + other_tasks("contracts.connect_bounded", "C03", "bounded")
@@ -16,12 +16,12 @@ TRUSTED_BASE = TRUSTED_CORE
 ASSUMPTIONS = SCHED_ASSUMPTIONS + [
     "cache entries (SimRunner.outputs) are inserted in increasing output-time order (dict order = time order): get_output_for and prune rely on it; "
     "it follows from C02/K (steps in increasing order) and the output-time check of get_outputs, not re-proved here",
-    "get_input_data (three-level dict merging, merge_all / merge_existing) is checked by a bounded stand-in with a stated bound, never counted as proved",
+    "merge_all / merge_existing (contracts.merge_ded): one dict level with an arbitrary merger, keys / values uninterpreted, dicts walked in arbitrary order each key once; their three-level composition in get_input_data (lambdas, aliasing between persistent_inputs and the step inputs) is checked by a bounded stand-in with a stated bound, never counted as proved",
 ]
 NOT_COVERED = ["the whole-run statement 'the inputs passed to a step at t are exactly ...' is decomposed, not proved end to end: cache and buffer functions against their specifications, get_outputs storing / pushing under the right times, prune keeping what a pull can still return, connect_one building the tables; the composition with C01 (inputs complete at BEGIN) is argued in DESIGN", 'get_input_data itself: bounded stand-in only']
 LEVEL_TEXT = "Contracts on the real get_output_for (newest entry not newer than t, {} if none), TimedInputBuffer.get_input (exactly the buffered values due at or before t, each removed once, later ones kept), prune_dataflow_cache (every future pull of every consumer is answered as before -- the retention clause taken from the property), the data clauses of get_outputs (cached under the output time, pushed with the connection's delay) and connect_one (pulled iff persistent and cached, else pushed; initial data placement; minimum delay); get_input_data by a bounded stand-in. End to end (BOUNDED, not a proof): the (time, inputs) sequences of real runs of the ungrouped scenarios of the harness (count in coverage.bounded[].bound) equal those of a sequential reference semantics written from the statements of C02/C03. TimedInputBuffer over sequences of add / get_input and entity creation by BOUNDED stand-ins."
 DESIGN_REF = "DESIGN.md section 8 (C03)"
-LEVEL_NOTE = 'Proved per function for arbitrary cache / buffer contents and any number of simulators; get_input_data only bounded. Trusted: pyvc encoder, cache order assumption, z3/cvc5. Fixed through this check: F4 (c11a443), F5 (2fee19a).'
-TECHNIQUE = 'contract-based deductive verification (AST->z3 VCs on get_output_for, TimedInputBuffer.get_input, prune_dataflow_cache, get_outputs, connect_one); get_input_data by a bounded stand-in'
+LEVEL_NOTE = 'Proved per function for arbitrary cache / buffer contents and any number of simulators; the merging primitives merge_all / merge_existing proved, their composition in get_input_data only bounded. Trusted: pyvc encoder, cache order assumption, z3/cvc5. Fixed through this check: F4 (c11a443), F5 (2fee19a).'
+TECHNIQUE = 'contract-based deductive verification (AST->z3 VCs on get_output_for, TimedInputBuffer.get_input, prune_dataflow_cache, get_outputs, connect_one, merge_all, merge_existing, World.connect); get_input_data's composition by a bounded stand-in'
 CLAIMED = True
 NA_REASON = ""
